@@ -132,6 +132,7 @@ type kindC struct {
 var kindsC = []kindC{
 	{"declaration", false}, {"expression", false}, {"method", false}, {"getter", false},
 	{"conditional", false}, {"comma", false}, {"computed-member", false}, {"logical-or", false},
+	{"with-object", false}, {"catch-parameter", false},
 	{"call", true}, {"apply-array", true}, {"apply-arguments", true}, {"apply-null", true},
 	{"bind0", true}, {"bind1", true},
 }
@@ -203,6 +204,18 @@ func programC(kind, this, nparams, nargs int, ops []int) (*js.Program, bool) {
 	case "logical-or":
 		p.Body = append(p.Body, assign(om, F))
 		call = js.CallE(bin("||", om, js.N(0)), args...)
+	case "with-object":
+		// with (o) log("ret", m(...)): the callee resolves in an object environment
+		// record with provideThis, so this = o (10.2.1.2.6, 11.2.3 step 6.b)
+		p.Body = append(p.Body, assign(om, F),
+			&js.With{Obj: js.Id("o"), Body: js.Log(str("ret"), js.CallE(js.Id("m"), args...))})
+		return p, true
+	case "catch-parameter":
+		// the callee resolves in the declarative record of a catch clause:
+		// ImplicitThisValue is undefined, so this = the global object
+		p.Body = append(p.Body, &js.Try{Body: js.Blk(&js.Throw{X: F}), Param: "e",
+			Catch: js.Blk(js.Log(str("ret"), js.CallE(js.Id("e"), args...)))})
+		return p, true
 	case "call":
 		call = js.CallE(js.Dot(F, "call"), withThis(args...)...)
 	case "apply-array":
